@@ -262,6 +262,22 @@ func (g *zgen) snippet(lines *[]string, usesJSON *bool) {
 		add(fmt.Sprintf("（显示：（生成JSON：%s））", d))
 		add(fmt.Sprintf("（显示：（生成JSON：【“a” = %s，“b” = %s，“c” = 【%s，%s】】））", l, l, l, l))
 		add(fmt.Sprintf("（显示：%s）", d))
+		// … and compared with independently built values that agree with it under one key and
+		// differ under another: equality is a function of the contents, whatever is shared
+		sh := g.v()
+		add(fmt.Sprintf("令%s = 【“k” = 1，“m” = 【1，2】】", sh))
+		e := g.v()
+		add(fmt.Sprintf("令%s = 【=】", e))
+		for _, k := range []string{"甲", "乙", "丙"} {
+			add(fmt.Sprintf("以%s（写入：“%s”、%s）", e, k, sh))
+		}
+		same, other := "【“k” = 1，“m” = 【1，2】】", "【“k” = 1，“m” = 【1，3】】"
+		for i := 0; i < 3; i++ {
+			vals := []string{same, same, same}
+			vals[g.t.Draw(3)] = other
+			add(fmt.Sprintf("（显示：%s 为 【“甲” = %s，“乙” = %s，“丙” = %s】）", e, vals[0], vals[1], vals[2]))
+		}
+		add(fmt.Sprintf("（显示：%s 为 【“甲” = %s，“乙” = %s，“丙” = %s】、【%s，%s】 为 【%s，%s】）", e, same, same, same, sh, sh, same, other))
 	case 10: // display texts of objects, classes, methods, exceptions: nothing in them may depend on an address
 		cls := "类" + g.v()
 		add(fmt.Sprintf("定义%s：\n\t其名 = “n”\n\n\t如何叫？\n\t\t输出此\n", cls))
